@@ -17,8 +17,10 @@
                                                                   see layer_centre_zero_lost / second_file_differs)
     "non-default surface elevations"                              surfaces_preserved
     "well tracks"                                                 wells_preserved
-    "the derived block and connection name lists are identical"   names_lists_preserved  (when rounding moves no surface
-                                                                  across a layer boundary: StableSurfaces, decidable)
+    "the derived block and connection name lists are identical"   names_lists_preserved (when rounding moves no surface across a
+                                                                  layer boundary), surface_crossing_characterised (exactly when
+                                                                  it can), names_lists_preserved_clear,
+                                                                  surface_on_boundary_changes_names (witness)
     "writing the re-read geometry reproduces the first file
       byte for byte"                                              geo_write_fixpoint_partial
     "for a geometry in feet the file holds feet and the re-read
@@ -31,20 +33,25 @@
   right-justified names of the convention's length without line breaks, distinct names, column nodes and
   connection columns that exist, every number within the ten-column limit at full precision — plus three
   clauses the proof forces and the real code confirms: at least one layer (`mulgrid().write(f); mulgrid(f)`
-  raises IndexError in identify_layer_tops), every well has a track point and a 5-character name (the
-  name field is neither stripped nor justified on read), and no column whose *rounded* polygon is
+  raises IndexError in identify_layer_tops), every well has a track point (a well without one is not
+  written at all) and a name of at most five characters, and no column whose *rounded* polygon is
   clockwise (a sliver thinner than the file's resolution; the reader would reverse its nodes).
 -/
 import PyTough.Model.GeoFile
 import PyTough.Proofs.GeoFileFixpoint2
 import PyTough.Proofs.GeoFileNames
 import PyTough.Proofs.GeoFileSizes
+import PyTough.Proofs.GeoFileClear
 
 namespace Props.C03
 open Py Model Model.GeoFile
 
 /-- `g'` is what writing `g` to a file and reading that file gives -/
 def Reread (g g' : Geo) : Prop := ∃ t, write g = .ok t ∧ GeoFile.read t = .ok g'
+
+/-- exact rationals / small names for the examples -/
+def r (n : Int) (d : Nat := 1) : Flt := .q (mkRat n d)
+def n3 (a : Char) : Str := [' ', ' ', a]
 
 /-- **Tie to the current /repo tree.**  Every table the model takes from the source is regenerated on
     each run (`Gen/Specs.lean`: `mulgrid_format_specification`, i.e. the field names — hence the
@@ -170,11 +177,22 @@ theorem surfaces_preserved (g g' : Geo) (hwf : WF g = true) (h : Reread g g') :
   · simp only [hd, if_true]
   · simp only [hd, Bool.false_eq_true, if_false]
 
-/-- the same wells in the same order, each with its track points in order at one decimal -/
+/-- the same wells in the same order; each name comes back right-justified in its five columns
+    (so a 5-character name — the format's own — is unchanged, a shorter one gains leading blanks:
+    `'W1'` ↦ `'   W1'`), each track point in order with every coordinate `x / scale` rounded half-even
+    to **one** decimal (`10.1f`), times the scale -/
 theorem wells_preserved (g g' : Geo) (hwf : WF g = true) (h : Reread g g') :
-    g'.wells = g.wells.map fun w => { w with pos := w.pos.map fun p =>
+    g'.wells = g.wells.map fun w => { name := rjust w.name 5, pos := w.pos.map fun p =>
       (canonC 1 (scaleOf g) p.1, canonC 1 (scaleOf g) p.2.1, canonC 1 (scaleOf g) p.2.2) } := by
   rw [reread_eq hwf h]; rfl
+
+/-- in particular wells with 5-character names keep their names -/
+theorem well_names_preserved (g g' : Geo) (hwf : WF g = true) (h : Reread g g')
+    (h5 : ∀ w ∈ g.wells, w.name.length = 5) : g'.wells.map (·.name) = g.wells.map (·.name) := by
+  rw [wells_preserved g g' hwf h, List.map_map]
+  apply List.map_congr_left
+  intro w hw
+  simp only [Function.comp, rjust, h5 w hw, Nat.sub_self, List.replicate_zero, List.nil_append]
 
 /-! ### derived name lists -/
 
@@ -188,6 +206,38 @@ theorem names_lists_preserved (g g' : Geo) (hwf : WF g = true) (hst : StableSurf
     blockNameList g' = blockNameList g ∧ blockConnectionNameList g' = blockConnectionNameList g := by
   rw [reread_eq hwf h]
   exact Proofs.GeoFile.names_preserved hwf hst
+
+/-- **When can rounding move a surface across a layer boundary?**  For a geometry whose stored layer
+    tops and default surfaces are what `identify_layer_tops` / `set_default_surface` make them
+    (`Consistent g`), `StableSurfaces g` holds **exactly** when no column surface lies strictly
+    above a layer bottom and is yet written as the same two decimals (`SurfaceClear g`) — because
+    the trip through the file is monotone (`Proofs.GeoFile.canonC_mono`), order can only be lost by
+    two different values becoming equal. -/
+theorem surface_crossing_characterised (g : Geo) (hwf : WF g = true) (hc : Consistent g = true) :
+    StableSurfaces g = SurfaceClear g :=
+  Proofs.GeoFile.stableSurfaces_iff hwf hc
+
+/-- the name lists are identical whenever no surface rounds onto a layer bottom it lies above -/
+theorem names_lists_preserved_clear (g g' : Geo) (hwf : WF g = true) (hc : Consistent g = true)
+    (hcl : SurfaceClear g = true) (h : Reread g g') :
+    blockNameList g' = blockNameList g ∧ blockConnectionNameList g' = blockConnectionNameList g :=
+  names_lists_preserved g g' hwf (by rw [surface_crossing_characterised g hwf hc]; exact hcl) h
+
+/-- one column whose surface, 0.004, lies just above the bottom 0.0 of the first layer: a block
+    4 mm thick.  The file carries 0.00 for both, so the re-read geometry has no such block. -/
+def gCross : Geo :=
+  { nodes := [⟨n3 'a', r 0, r 0⟩, ⟨n3 'b', r 10, r 0⟩, ⟨n3 'c', r 0, r 15⟩, ⟨n3 'd', r 10, r 15⟩],
+    columns := [⟨n3 'a', [n3 'a', n3 'b', n3 'd', n3 'c'], 0, .at (r 5) (r 75 10), some (r 4 1000), false, 2⟩],
+    layers := [⟨[' ', '0'], r 10, r 10, r 10⟩, ⟨[' ', '1'], r 0, r 5, r 10⟩, ⟨[' ', '2'], r (-10), r (-5), r 0⟩] }
+
+/-- **…and otherwise they are not** (witness; the same geometry is in the harness corpus and run on
+    the real code): `gCross` is well-formed and consistent, its surface rounds onto the layer bottom
+    it lies above, and the block name list loses the block `'  a 1'` in the round trip. -/
+theorem surface_on_boundary_changes_names :
+    WF gCross = true ∧ Consistent gCross = true ∧ SurfaceClear gCross = false ∧
+    blockNameList gCross = .ok [['A','T','M',' ','0'], [' ',' ','a',' ','1'], [' ',' ','a',' ','2']] ∧
+    blockNameList (canonGeo gCross) = .ok [['A','T','M',' ','0'], [' ',' ','a',' ','2']] := by
+  decide +kernel
 
 /-! ### second generation -/
 
@@ -278,9 +328,6 @@ theorem left_justified_name_changes :
 
 /-! ### the known finding: a layer centre written as 0.00 -/
 
-/-- exact rationals / small names for the examples -/
-def r (n : Int) (d : Nat := 1) : Flt := .q (mkRat n d)
-def n3 (a : Char) : Str := [' ', ' ', a]
 
 /-- one column, top at 1.006 (written 1.01), first layer down to −1.0 with centre 0.003 (written 0.00) -/
 def gCentre : Geo :=
@@ -323,10 +370,11 @@ def gExample : Geo :=
                 ⟨n3 'b', [n3 'b', n3 'c', n3 'f', n3 'e'], 1, .at (r 150) (r 7512 100), some (r (-31) 10), false, 1⟩],
     connections := [(n3 'a', n3 'b')],
     layers := [⟨[' ', '0'], r 0, r 0, r 0⟩, ⟨[' ', '1'], r (-10), r (-5), r 0⟩, ⟨[' ', '2'], r (-30), r (-20), r (-10)⟩],
-    wells := [⟨[' ', ' ', ' ', 'W', '1'], [(r 10, r 20, r 0), (r 10, r 21, r (-255) 10)]⟩] }
+    wells := [⟨['W', '1'], [(r 10, r 20, r 0), (r 10, r 21, r (-255) 10)]⟩] }
 
 example : WF gExample = true ∧ LayerCentresKept gExample = true ∧ SizesStable gExample = true ∧
-    StableSurfaces gExample = true ∧ gExample.hdr.unitType = feet := by decide +kernel
+    StableSurfaces gExample = true ∧ Consistent gExample = true ∧ SurfaceClear gExample = true ∧
+    gExample.hdr.unitType = feet := by decide +kernel
 -- (test) the name lists of the example are not trivial: 2 atmosphere + 4 underground blocks, 6 connections
 example : (blockNameList gExample).map List.length = .ok 6 ∧ (blockConnectionNameList gExample).map List.length = .ok 6 := by
   decide +kernel
